@@ -137,7 +137,26 @@ func H_C12_finish() {
 	} else if interrupted {
 		phase = "interrupted during installation"
 	}
-	label := "the loader sees exactly the old or exactly the new index: " + kind + " (old shards=" + string(rune('0'+old)) + ", new shards=" + string(rune('0'+nw)) + "), " + phase
+	// what kind of mixture: every shard slot that exists in both indexes still holds the old or the
+	// new shard (the documented weakness of a multi-rename install), or a slot lost both
+	outcome := "mixture of whole old and new shards"
+	common := old
+	if nw < common {
+		common = nw
+	}
+	for i := 0; i < common; i++ {
+		id := string(rune('0' + i))
+		have := false
+		for _, d := range docs {
+			if d == "old"+id+".go" || d == "new"+id+".go" {
+				have = true
+			}
+		}
+		if !have {
+			outcome = "a shard present in both the old and the new index is gone"
+		}
+	}
+	label := "the loader sees exactly the old or exactly the new index: " + kind + " (old shards=" + string(rune('0'+old)) + ", new shards=" + string(rune('0'+nw)) + "), " + phase + ": " + outcome
 	verifrt.Assert(isOld || isNew, label)
 	if !crashed && err == nil {
 		verifrt.Assert(isNew, "a build that reports success has installed exactly the new index")
